@@ -704,3 +704,9 @@ SELFTEST = [
     ('benign-bias-rewrite', 'pyerrors/obs.py', _STD, _STD.replace('/ (1 + 1 / e_N)', '* e_N / (e_N + 1)'), 'BENIGN'),
     ('benign-sigma-rewrite', 'pyerrors/obs.py', "np.sqrt(e_gamma[e_name][0] / (e_N - 1))", "np.sqrt(e_gamma[e_name][0]) / np.sqrt(e_N - 1)", 'BENIGN'),
 ]
+
+LEVEL_TEXT = ('decides only: every formula assigned in Obs.gamma_method (rho, tau_W, dtau_W, window criteria g_W and rho-N_sigma*drho, bias-corrected tau_int, '
+              'sigma, dsigma, S=0 and tail branches, totals, Covobs.errsq) is algebraically the Gamma-method formula of the paper, evaluated at the lag it is '
+              'used for; pair-count normalisation uses identical arguments; FFT padding is sufficient and the direct path sums lag-n products. '
+              'Not the numerical output of FFT/summation.')
+TECHNIQUE = 'AST -> sympy translation with opaque slot functions and symbolic element index; equality modulo algebra against reference formulas'
